@@ -2918,7 +2918,7 @@ class Set(Collection):
         if items and (attr.lazy or not setdata):
             items = list(items)
             if not reverse.is_collection:
-                sql, adapter, attr_offsets = rentity._construct_batchload_sql_(len(items))
+                sql, adapter, attr_offsets = rentity._construct_batchload_sql_(len(items), query_attrs=(reverse,))
                 arguments = adapter(items)
                 cursor = database._exec_sql(sql, arguments)
                 items = rentity._fetch_objects(cursor, attr_offsets)
@@ -4259,16 +4259,16 @@ class EntityMeta(type):
         discr_values = [ [ 'VALUE', cls._discriminator_ ] for cls in entity._subclasses_ ]
         discr_values.append([ 'VALUE', entity._discriminator_])
         return [ 'IN', [ 'COLUMN', alias, discr_attr.column ], discr_values ]
-    def _construct_batchload_sql_(entity, batch_size, attr=None, from_seeds=True):
+    def _construct_batchload_sql_(entity, batch_size, attr=None, from_seeds=True, query_attrs=()):
         pc = local.prefetch_context
         attrs_to_prefetch = pc.get_frozen_attrs_to_prefetch(entity) if pc is not None else ()
-        query_key = batch_size, attr, from_seeds, attrs_to_prefetch
+        # the attribute the rows are selected by (or are loaded for) must be in the row even if it is lazy:
+        # merging it is what puts each object into its owner's collection
+        if attr is not None: query_attrs = (attr,)
+        query_key = batch_size, attr, from_seeds, attrs_to_prefetch, query_attrs
         cached_sql = entity._batchload_sql_cache_.get(query_key)
         if cached_sql is not None: return cached_sql
-        # the attribute the rows are selected by must be in the row even if it is lazy:
-        # merging it is what puts each object into its owner's collection
-        select_list, attr_offsets = entity._construct_select_clause_(
-            all_attributes=True, query_attrs=() if attr is None else (attr,))
+        select_list, attr_offsets = entity._construct_select_clause_(all_attributes=True, query_attrs=query_attrs)
         from_list = [ 'FROM', [ None, 'TABLE', entity._table_ ]]
         if attr is None:
             columns = entity._pk_columns_
